@@ -1,9 +1,123 @@
 import Driver.Json
-open Lean Drv
+import Model.Cluster
+open Lean Drv Ens Ens.Cluster
 
 namespace Drv.C01
 
-def handle (op : String) (_req : Json) : Except String Json :=
-  throw s!"bad-op C01.{op}"
+def errStr : Err → String
+  | .indexError => "index-error"
+  | .valueError => "value-error"
+  | .dataInvalid => "data-invalid"
+  | .assertion => "assertion"
+  | .unboundLocal => "unbound-local"
+  | .fuel => "fuel"
+  | .oracleExhausted => "oracle-exhausted"
+  | .infState => "inf-state"
+  | .notModelled => "not-modelled"
+
+/-- the distance table of the request: `"D"` is an `n × n` array of rationals, row = frame, column = center -/
+def getTable (req : Json) : Except String (Nat × Table) := do
+  let n ← getNat (← field req "n")
+  let rows ← getList (getList getRat) (← field req "D")
+  if rows.length ≠ n ∨ rows.any (fun r => r.length ≠ n) then throw "table is not n x n"
+  let arr : Array (Array Rat) := (rows.map List.toArray).toArray
+  pure (n, fun f c => (arr.getD f #[]).getD c 0)
+
+def getOptNat (req : Json) (k : String) : Except String (Option Nat) :=
+  match fieldOpt req k with
+  | none => pure none
+  | some j => do let v ← getNat j; pure (some v)
+
+def getOptNatList (req : Json) (k : String) : Except String (Option (List Nat)) :=
+  match fieldOpt req k with
+  | none => pure none
+  | some j => do let v ← getList getNat j; pure (some v)
+
+def getNatListD (req : Json) (k : String) : Except String (List Nat) :=
+  match fieldOpt req k with
+  | none => pure []
+  | some j => getList getNat j
+
+def arrJson (n : Nat) (a : Arr) : List (String × Json) :=
+  [("assign", listJson intJson (tabulate n a.assign)),
+   ("dist", listJson (fun q => if a.fresh then Json.null else ratJson q) (tabulate n a.dist))]
+
+def stJson (n : Nat) (s : St) : Json :=
+  Json.mkObj ([("inds", listJson natJson s.ctrInds), ("frames", listJson natJson s.ctrFrames)] ++ arrJson n s.arr)
+
+def stepJson (t : PamStep) : Json :=
+  Json.mkObj [("cid", natJson t.cid), ("p", natJson t.p), ("dn", natJson t.dn), ("other", natJson t.other),
+              ("this", natJson t.this), ("old", ratJson t.oldCost), ("new", ratJson t.newCost),
+              ("same", Json.bool t.same), ("acc", Json.bool t.acc)]
+
+def runJson (n : Nat) (r : Run) (given : Nat) : Json :=
+  Json.mkObj [("final", stJson n r.final), ("trace", listJson stepJson r.trace),
+              ("sweeps", listJson (stJson n) r.sweeps), ("used", natJson (given - r.oracle.length))]
+
+/-- user supplied `(assignments, distances)` -/
+def getArr? (req : Json) (n : Nat) : Except String (Option Arr) := do
+  match fieldOpt req "assign", fieldOpt req "dist" with
+  | some ja, some jd =>
+    let a ← getList getInt ja
+    let d ← getList getRat jd
+    if a.length ≠ n ∨ d.length ≠ n then throw "assign/dist length"
+    pure (some { fresh := false, distA := d.toArray, assignA := a.toArray })
+  | none, none => pure none
+  | _, _ => throw "assign and dist must come together"
+
+def handle (op : String) (req : Json) : Except String Json := do
+  let (n, D) ← getTable req
+  match op with
+  | "assign" =>
+    let cs ← getList getNat (← field req "centers")
+    if cs.any (fun c => decide (n ≤ c)) then return errJson "index-error"
+    let br ← getStr (← field req "branch")
+    let r ← match br with
+      | "loop" => pure (Except.ok (assignNearest D n cs))
+      | "argmin" => pure (assignArgmin D n cs)
+      | "auto-xyz" => pure (assignToNearestCenter D n cs true)
+      | _ => throw s!"bad branch {br}"
+    match r with
+    | .error e => pure (errJson (errStr e))
+    | .ok a => pure (okJson (Json.mkObj [("final", Json.mkObj ([("inds", listJson natJson cs),
+                        ("frames", listJson natJson cs)] ++ arrJson n a))]))
+  | "kcenters" =>
+    let ncl ← getOptNat req "n_clusters"
+    let cutoff ← getRat (← field req "cutoff")
+    let init ← getOptNatList req "init"
+    match kcenters D n ncl cutoff init (n + 2) with
+    | .error e => pure (errJson (errStr e))
+    | .ok s => pure (okJson (Json.mkObj [("final", stJson n s)]))
+  | "pam" =>
+    let inds ← getList getNat (← field req "inds")
+    let arr ← getArr? req n
+    let props ← getOptNatList req "proposals"
+    let orc ← getNatListD req "oracle"
+    match arr with
+    | none => throw "pam needs assign and dist"
+    | some a =>
+      match pamUpdate D n { arr := a, ctrInds := inds, ctrFrames := inds } props orc with
+      | .error e => pure (errJson (errStr e))
+      | .ok (s, rest, tr) =>
+        pure (okJson (runJson n { final := s, oracle := rest, trace := tr, sweeps := [s] } orc.length))
+  | "kmedoids" =>
+    let nIters ← getNat (← field req "n_iters")
+    let inds ← getOptNatList req "inds"
+    let arr ← getArr? req n
+    let props ← getOptNatList req "proposals"
+    let orc ← getNatListD req "oracle"
+    match kmedoids D n nIters inds arr props orc with
+    | .error e => pure (errJson (errStr e))
+    | .ok r => pure (okJson (runJson n r orc.length))
+  | "hybrid" =>
+    let ncl ← getOptNat req "n_clusters"
+    let cutoff ← getRat (← field req "cutoff")
+    let init ← getOptNatList req "init"
+    let nIters ← getNat (← field req "n_iters")
+    let orc ← getNatListD req "oracle"
+    match hybrid D n ncl cutoff init (n + 2) nIters orc with
+    | .error e => pure (errJson (errStr e))
+    | .ok r => pure (okJson (runJson n r orc.length))
+  | _ => throw s!"bad-op C01.{op}"
 
 end Drv.C01
